@@ -173,9 +173,12 @@ def run(program, rep, tier):
                 if d.startswith('self.') and i_app is None and d.count(
                         '.') == 1:
                     m = program.resolve_method(world, d.split('.')[1])
+                    from dlint.normalise import closure_nodes
                     if m is not None and any(
-                            DEAD.split('.')[1] in norm(x) for x in ast.walk(
-                                m.node) if isinstance(x, ast.Attribute)):
+                            DEAD.split('.')[1] in norm(x)
+                            for nd in closure_nodes(program, world, m)
+                            for x in ast.walk(nd)
+                            if isinstance(x, ast.Attribute)):
                         i_app = i
                         applier_name = m.name
                 if d.endswith('.process') and not d.startswith('self.') \
@@ -337,6 +340,7 @@ def run(program, rep, tier):
     exits = w.run(app, world)
     rep.count('paths', len(exits))
     live_iter = None
+    falsy_id = None
     snapshot_draw = False
     unguarded = None
     stuck = None
@@ -397,11 +401,23 @@ def run(program, rep, tier):
                                 for x in tr[:i])
                             if not guard:
                                 unguarded = (e, ent)
+            if e.kind == 'cond' and e.sym is not None and (
+                    e.sym.text == f'{DEAD}.pop()' or e.sym.text in {
+                        x.sym.text for x in tr if x.kind == 'fresh'
+                        and '_dead_entities' in x.extra.text}):
+                falsy_id = e
             if e.kind == 'exc-edge':
                 n_exc += 1
                 for ent in current:
                     if not (ent in removed_ids or swapped):
                         stuck = (e, ent)
+    if falsy_id is not None:
+        rep.bad('C05.progress', site(app), falsy_id.node,
+                'the sweep decides by the truth value of the id it drew '
+                f'({falsy_id.sym.text}): an entity whose id is falsy (0, "", '
+                '()) ends the sweep - it exists again with its components '
+                'and the remaining marks wait while the processors run',
+                line=getattr(falsy_id.node, 'lineno', None))
     if live_iter is not None:
         rep.bad('C05.progress', site(app), live_iter.node.iter,
                 'the pending set is iterated live while the teardown runs '
@@ -469,6 +485,15 @@ def run(program, rep, tier):
         todo += [c for c in _self_calls(meths[n]) if c.startswith('_')
                  and not c.startswith('__')]
     c01.analyse_writers(program, rep, only=tear, prefix='C05')
+
+    # ---- queries answer from the tables: a remembered answer survives the
+    # deferred deletion unless every table mutator forgets it (C06.memo) ------
+    from rules import c06
+    rep.borrow(c06.check_query_memo, program, rep,
+               keep=lambda o: o.rule == 'C06.memo',
+               rename=lambda r: 'C05.visible-memo',
+               why='after process() a query still reports the components of '
+               'the deleted entity')
 
     # ---- clear ----------------------------------------------------------------
     cl = program.method('World', 'clear')
